@@ -67,16 +67,19 @@ type Tgt struct {
 
 // Shard is the script of one shard for one cycle.
 type Shard struct {
-	Ready         bool          `json:"ready"`
-	StatusGetFail bool          `json:"statusGetFail,omitempty"`
-	RuntimeFail   bool          `json:"runtimeFail,omitempty"`
-	HashMode      int           `json:"hashMode,omitempty"`
-	Status        map[uint64]St `json:"status,omitempty"`
-	Head          int64         `json:"head"`
-	Proc          int64         `json:"proc"`
-	IdleAgoSec    *int64        `json:"idleAgoSec,omitempty"` // nil: not idle
-	PostFail      bool          `json:"postFail,omitempty"`
-	ExtraFail     bool          `json:"extraFail,omitempty"`
+	Ready         bool `json:"ready"`
+	StatusGetFail bool `json:"statusGetFail,omitempty"`
+	RuntimeFail   bool `json:"runtimeFail,omitempty"`
+	HashMode      int  `json:"hashMode,omitempty"`
+	// EmptyHash: while out of sync the shard reports the EMPTY hash (a sidecar restarted without a config file)
+	// instead of the hash of an older configuration
+	EmptyHash  bool          `json:"emptyHash,omitempty"`
+	Status     map[uint64]St `json:"status,omitempty"`
+	Head       int64         `json:"head"`
+	Proc       int64         `json:"proc"`
+	IdleAgoSec *int64        `json:"idleAgoSec,omitempty"` // nil: not idle
+	PostFail   bool          `json:"postFail,omitempty"`
+	ExtraFail  bool          `json:"extraFail,omitempty"`
 }
 
 // Replica is the script of one replica (StatefulSet) for one cycle.
@@ -236,6 +239,9 @@ func buildShard(ri, si int, sc *Shard, log *[]Req) *shard.Shard {
 			ri := &shard.RuntimeInfo{HeadSeries: sc.Head, ProcessSeries: sc.Proc, ConfigHash: CfgHash}
 			if sc.HashMode != HashEqual {
 				ri.ConfigHash = OldHash
+				if sc.EmptyHash {
+					ri.ConfigHash = ""
+				}
 				if pushed && sc.HashMode == HashDiffAcceptEqual {
 					ri.ConfigHash = CfgHash
 				}
